@@ -42,7 +42,7 @@ fn root() -> String {
 }
 
 fn families() -> Vec<Box<dyn DynFamily>> {
-    vec![Box::new(fam::a1::A1), Box::new(fam::a2::A2), Box::new(fam::a3::A3), Box::new(fam::a4::A4), Box::new(fam::a5::A5), Box::new(fam::a6::A6), Box::new(fam::a7::A7), Box::new(fam::a8::A8), Box::new(fam::a9::A9 { locked: true }), Box::new(fam::a9::A9 { locked: false }), Box::new(fam::b1::B1), Box::new(fam::b2::B2), Box::new(fam::b3::B3), Box::new(fam::b4::B4)]
+    vec![Box::new(fam::a1::A1), Box::new(fam::a2::A2), Box::new(fam::a3::A3), Box::new(fam::a4::A4), Box::new(fam::a5::A5), Box::new(fam::a6::A6), Box::new(fam::a7::A7), Box::new(fam::a8::A8), Box::new(fam::a9::A9 { locked: true }), Box::new(fam::a9::A9 { locked: false }), Box::new(fam::b1::B1), Box::new(fam::b2::B2), Box::new(fam::b3::B3), Box::new(fam::b4::B4), Box::new(fam::b6::B6)]
 }
 
 fn level_of(prop: &str) -> &'static str {
@@ -164,6 +164,7 @@ fn cmd_check(args: &[String]) -> i32 {
             count,
             max_violations: 5,
             wall_limit_s: if tier == Tier::Quick { 240.0 } else { 3000.0 },
+            stride: 1,
         };
         let tf = std::time::Instant::now();
         let agg = f.run(&cfg);
@@ -171,8 +172,9 @@ fn cmd_check(args: &[String]) -> i32 {
         // determinism self-check: a slice of this batch again at two other worker counts, same
         // hashes; the slice is sized to cost a few seconds at most
         let cpu_per_scn = fam_wall * workers as f64 / agg.base_scenarios.max(1) as f64;
-        let dn = count.min(48).min(((4.0 * workers as f64 / 2.0) / cpu_per_scn.max(1e-6)) as u64).max(2).min(count);
-        let dcfg = |w: usize| RunCfg { seed, tier, property: prop.clone(), workers: w, count: dn, max_violations: 0, wall_limit_s: 600.0 };
+        let dn = count.min(48).min(((3.0 * workers as f64 / 2.0) / cpu_per_scn.max(1e-6)) as u64).max(2).min(count);
+        // spread over the whole batch (the first indices of some families are the heaviest)
+        let dcfg = |w: usize| RunCfg { seed, tier, property: prop.clone(), workers: w, count: dn, max_violations: 0, wall_limit_s: 600.0, stride: (count / dn).max(1) };
         let d1 = f.run(&dcfg((workers / 2).max(1)));
         let d2 = f.run(&dcfg(workers.max(2)));
         if d1.hash_sum != d2.hash_sum || d1.evaluations != d2.evaluations {
